@@ -1,6 +1,4 @@
-import BreezyVerif.Lemmas.C30CK
-import BreezyVerif.Lemmas.C30V3
-import BreezyVerif.Lemmas.C30Req
+import BreezyVerif.Lemmas.C30Serve
 /-!
 C30 — a smart server never waits for bytes beyond the current request.
 
@@ -101,98 +99,207 @@ example : ckWf (.expectingLength [49] .empty) ∧
     ((CK.expectingLength [49] .empty).feed [10, 97, 69, 78, 68, 10]).finished = true :=
   ⟨by simp [ckWf], by decide +kernel⟩
 
-/-! ## ProtocolThreeDecoder (server pipe medium; client `_read_more`) -/
+/-! ## ProtocolThreeDecoder (server pipe medium; client `_read_more`)
+
+`v3_hint_bound` is the framing-level bound.  The server's decoder additionally gives up
+(`decoding_failed`, hint 0) when a header / structure payload does not bdecode (`okH`, `okS`
+— arbitrary predicates here, instantiated with a model of fastbencode in the driver); on
+the client the message handler raising (`isSeq`, `Resp.run`) ends the loop as well.  The
+theorems below are about those guarded machines and state the conditions explicitly. -/
 
 theorem v3_hint_bound (s : V3) (q : Bytes) (hwf : v3Wf s) (hnf : s.finished = false)
     (hfin : (s.feed q).finished = true) :
     1 ≤ s.nextReadSize ∧ s.nextReadSize + ((s.feed q).unused.length : Int) ≤ q.length :=
   (v3Laws.hint s q hwf hnf hfin).2
 
-theorem v3s_feed_encode (headers : Bytes) (parts : List Part)
-    (hh : headers.length < 4294967296) (hp : V3.partsOk parts = true) :
-    V3.feed (V3.init false) (v3EncodeBody headers parts)
-      = .done (.headers headers :: (parts.map Part.ev ++ [.end_])) [] := by
-  have := V3.proc_headers_encode headers parts [] [] hh hp
-  simp only [List.append_nil, List.nil_append] at this
-  simp only [V3.init, Bool.false_eq_true, if_false, V3.feed_run, List.nil_append]
-  exact this
+/-- server: whatever state the decoder rests in and whatever continuation `q` completes the
+message with all checks passing, the hint is ≥ 1 and stays inside the message -/
+theorem v3s_hint_bound (okH okS : Bytes → Bool) (s : V3) (q : Bytes) (hwf : v3Wf s)
+    (hnf : (v3gMachine okH okS).fin s = false)
+    (hfin : (v3gMachine okH okS).fin (s.feed q) = true) :
+    1 ≤ (v3gMachine okH okS).nrs s ∧
+      (v3gMachine okH okS).nrs s + ((s.feed q).unused.length : Int) ≤ q.length :=
+  ((v3gLaws okH okS).hint s q hwf hnf hfin).2
 
-theorem v3c_feed_encode (headers : Bytes) (parts : List Part)
-    (hh : headers.length < 4294967296) (hp : V3.partsOk parts = true) :
-    V3.feed (V3.init true) (v3Encode headers parts)
-      = .done (.headers headers :: (parts.map Part.ev ++ [.end_])) [] := by
-  have := V3.proc_version_encode headers parts [] hh hp
-  simp only [List.append_nil] at this
-  simp only [V3.init, if_true, V3.feed_run, List.nil_append]
-  exact this
-
-/-- server side: the medium has consumed the version marker -/
-theorem v3s_no_overread (headers : Bytes) (parts : List Part)
+theorem v3s_complete (okH okS : Bytes → Bool) (headers : Bytes) (parts : List Part)
     (hh : headers.length < 4294967296) (hp : V3.partsOk parts = true)
+    (hH : okH headers = true) (hS : parts.all (fun p => evOk okH okS p.ev) = true) :
+    (v3gMachine okH okS).fin ((v3gMachine okH okS).feed (V3.init false) (v3EncodeBody headers parts)) = true ∧
+    (v3gMachine okH okS).unused ((v3gMachine okH okS).feed (V3.init false) (v3EncodeBody headers parts)) = [] := by
+  simp only [v3gMachine, guardMachine, v3Machine, v3g_feed_encode okH okS headers parts hh hp,
+    v3Ok_done okH okS headers parts [] hH hS, V3.finished, V3.unused, Bool.and_self, and_self]
+
+/-- server side (the medium has consumed the version marker) -/
+theorem v3s_no_overread (okH okS : Bytes → Bool) (headers : Bytes) (parts : List Part)
+    (hh : headers.length < 4294967296) (hp : V3.partsOk parts = true)
+    (hH : okH headers = true) (hS : parts.all (fun p => evOk okH okS p.ev) = true)
     (segs : List Bytes) (q : Bytes) (hw : segs.flatten ++ q = v3EncodeBody headers parts)
     (hq : q ≠ []) :
-    (feedAll V3.feed (V3.init false) segs).nextReadSize ≠ 0 ∧
-    1 ≤ (feedAll V3.feed (V3.init false) segs).nextReadSize ∧
-    (feedAll V3.feed (V3.init false) segs).nextReadSize ≤ q.length := by
-  have := v3Laws.no_overread (V3.init false) _ (v3Wf_init false)
-    (by show (V3.feed (V3.init false) _).finished = true; rw [v3s_feed_encode _ _ hh hp]; rfl) (by show (V3.feed (V3.init false) _).unused = []; rw [v3s_feed_encode _ _ hh hp]; rfl) segs q hw hq
-  simpa [v3Machine] using this
+    (v3gMachine okH okS).nrs (feedAll V3.feed (V3.init false) segs) ≠ 0 ∧
+    1 ≤ (v3gMachine okH okS).nrs (feedAll V3.feed (V3.init false) segs) ∧
+    (v3gMachine okH okS).nrs (feedAll V3.feed (V3.init false) segs) ≤ q.length := by
+  obtain ⟨c1, c2⟩ := v3s_complete okH okS headers parts hh hp hH hS
+  have := (v3gLaws okH okS).no_overread (V3.init false) _ (v3Wf_init false) c1 c2 segs q hw hq
+  obtain ⟨_, h1, h2⟩ := this
+  exact ⟨by intro h; rw [show (v3gMachine okH okS).feed = V3.feed from rfl] at h1; omega, h1, h2⟩
 
-theorem v3s_zero_exactly_at_end (headers : Bytes) (parts : List Part)
+theorem v3s_zero_exactly_at_end (okH okS : Bytes → Bool) (headers : Bytes) (parts : List Part)
     (hh : headers.length < 4294967296) (hp : V3.partsOk parts = true)
+    (hH : okH headers = true) (hS : parts.all (fun p => evOk okH okS p.ev) = true)
     (segs : List Bytes) (hne : segs ≠ []) (hw : segs.flatten = v3EncodeBody headers parts) :
-    (feedAll V3.feed (V3.init false) segs).nextReadSize = 0 := by
-  have := v3Laws.stops_at_end (V3.init false) _ (by show (V3.feed (V3.init false) _).finished = true; rw [v3s_feed_encode _ _ hh hp]; rfl) segs hne hw
-  simpa [v3Machine] using this
+    (v3gMachine okH okS).nrs (feedAll V3.feed (V3.init false) segs) = 0 := by
+  obtain ⟨c1, _⟩ := v3s_complete okH okS headers parts hh hp hH hS
+  have hfin := (v3gLaws okH okS).fin_of_all (V3.init false) _ c1 segs hne hw
+  simp only [v3gMachine, guardMachine, v3Machine, Bool.and_eq_true] at hfin ⊢
+  rw [hfin.2]
+  cases hs : feedAll V3.feed (V3.init false) segs with
+  | done evs u => rfl
+  | run t b e n => rw [hs] at hfin; simp [V3.finished] at hfin
+  | failed e x => rw [hs] at hfin; simp [V3.finished] at hfin
 
-theorem v3s_loop_consumes_exactly (headers : Bytes) (parts : List Part)
+theorem v3s_loop_consumes_exactly (okH okS : Bytes → Bool) (headers : Bytes) (parts : List Part)
     (hh : headers.length < 4294967296) (hp : V3.partsOk parts = true)
+    (hH : okH headers = true) (hS : parts.all (fun p => evOk okH okS p.ev) = true)
     (sched : Nat → Nat) (i : Nat) (segs : List Bytes) (q : Bytes)
     (hw : segs.flatten ++ q = v3EncodeBody headers parts) (hq : q ≠ []) :
-    pipeLoop v3Machine sched (q.length + 1) i (feedAll V3.feed (V3.init false) segs) q
+    pipeLoop (v3gMachine okH okS) sched (q.length + 1) i (feedAll V3.feed (V3.init false) segs) q
       = .finished (.done (.headers headers :: (parts.map Part.ev ++ [.end_])) []) [] := by
-  have := v3Laws.loop_from_reads (V3.init false) _ (v3Wf_init false)
-    (by show (V3.feed (V3.init false) _).finished = true; rw [v3s_feed_encode _ _ hh hp]; rfl) (by show (V3.feed (V3.init false) _).unused = []; rw [v3s_feed_encode _ _ hh hp]; rfl)
-    sched i segs q hw hq
-  have e : v3Machine.feed (V3.init false) _ = _ := v3s_feed_encode headers parts hh hp
-  rw [e] at this
+  obtain ⟨c1, c2⟩ := v3s_complete okH okS headers parts hh hp hH hS
+  have := (v3gLaws okH okS).loop_from_reads (V3.init false) _ (v3Wf_init false) c1 c2 sched i segs q hw hq
+  rw [show (v3gMachine okH okS).feed (V3.init false) (v3EncodeBody headers parts) = _ from
+    v3g_feed_encode okH okS headers parts hh hp] at this
   exact this
 
-/-- client side: the decoder expects the version marker itself -/
-theorem v3c_no_overread (headers : Bytes) (parts : List Part)
+/-- WHY the conditions are needed (model = code): a structure part whose payload does not
+bdecode makes the server's decoder give up as soon as that part has arrived — the hint is
+0 and the loop returns with the rest `r` of the message unread, for every `r`. -/
+theorem v3s_undecodable_stops_early (okH okS : Bytes → Bool) (headers raw : Bytes)
+    (parts : List Part) (hh : headers.length < 4294967296) (hp : V3.partsOk parts = true)
+    (hr : raw.length < 4294967296) (hbad : okS raw = false)
+    (sched : Nat → Nat) (fuel i : Nat) (r : Bytes) :
+    let s := V3.feed (V3.init false)
+      (be32 headers.length ++ headers ++ encodeParts (parts ++ [Part.struct raw]))
+    (v3gMachine okH okS).nrs s = 0 ∧
+      pipeLoop (v3gMachine okH okS) sched (fuel + 1) i s r = .finished s r := by
+  intro s
+  have hs : s = .run .part [] (.headers headers :: (parts ++ [Part.struct raw]).map Part.ev) 1 := by
+    have hp' : V3.partsOk (parts ++ [Part.struct raw]) = true := by
+      simp only [V3.partsOk, List.all_append, List.all_cons, List.all_nil, Bool.and_true,
+        Bool.and_eq_true, decide_eq_true_eq] at hp ⊢
+      exact ⟨hp, hr⟩
+    show V3.feed (V3.init false) _ = _
+    simp only [V3.init, Bool.false_eq_true, if_false, V3.feed_run, List.nil_append,
+      List.append_assoc]
+    rw [V3.proc_lp_inr (tag := .headers) rfl _ (V3.extractLP_encode headers _ hh)]
+    have := V3.proc_parts (parts ++ [Part.struct raw]) [] ([] ++ [V3.lpEv .headers headers]) hp'
+    rw [List.append_nil] at this
+    rw [this, V3.proc_part_nil]
+    rfl
+  have hok : v3Ok okH okS s = false := by
+    rw [hs]
+    simp [v3Ok, V3.events, Part.ev, evOk, hbad]
+  obtain ⟨h1, h2, _⟩ := guard_stops v3Machine (v3Ok okH okS) s hok
+  refine ⟨h1, ?_⟩
+  unfold pipeLoop
+  rw [show (v3gMachine okH okS).stop s = true from h2]
+  rfl
+
+/-- client side: the decoder expects the version marker itself; the response handler must
+accept the parts (`Resp.run`) and every structure must be a sequence -/
+theorem v3c_complete (okH okS isSeq : Bytes → Bool) (fx : Bool) (headers : Bytes) (parts : List Part)
     (hh : headers.length < 4294967296) (hp : V3.partsOk parts = true)
+    (hH : okH headers = true) (hS : parts.all (fun p => evOk okH okS p.ev) = true)
+    (hQ : parts.all (fun p => evOk (fun _ => true) isSeq p.ev) = true)
+    (hR : (Resp.run fx {} (.headers headers :: (parts.map Part.ev ++ [.end_]))).toBool = true) :
+    (v3cMachine okH okS isSeq fx).fin (V3.feed (V3.init true) (v3Encode headers parts)) = true ∧
+    (V3.feed (V3.init true) (v3Encode headers parts)).unused = [] := by
+  have e : V3.feed (V3.init true) (v3Encode headers parts)
+      = .done (.headers headers :: (parts.map Part.ev ++ [.end_])) [] := by
+    have := V3.proc_version_encode headers parts [] hh hp
+    simp only [List.append_nil] at this
+    simp only [V3.init, if_true, V3.feed_run, List.nil_append]
+    exact this
+  rw [e]
+  refine ⟨?_, rfl⟩
+  simp only [v3cMachine, guardMachine, v3Machine, V3.finished, Bool.true_and, v3cOk,
+    v3Ok_done okH okS headers parts [] hH hS, v3Ok_done (fun _ => true) isSeq headers parts [] rfl hQ,
+    V3.events]
+  revert hR
+  cases Resp.run fx {} (.headers headers :: (parts.map Part.ev ++ [.end_])) <;> simp [Except.toBool]
+
+theorem v3c_no_overread (okH okS isSeq : Bytes → Bool) (fx : Bool) (headers : Bytes) (parts : List Part)
+    (hh : headers.length < 4294967296) (hp : V3.partsOk parts = true)
+    (hH : okH headers = true) (hS : parts.all (fun p => evOk okH okS p.ev) = true)
+    (hQ : parts.all (fun p => evOk (fun _ => true) isSeq p.ev) = true)
+    (hR : (Resp.run fx {} (.headers headers :: (parts.map Part.ev ++ [.end_]))).toBool = true)
     (segs : List Bytes) (q : Bytes) (hw : segs.flatten ++ q = v3Encode headers parts)
     (hq : q ≠ []) :
-    (feedAll V3.feed (V3.init true) segs).nextReadSize ≠ 0 ∧
-    1 ≤ (feedAll V3.feed (V3.init true) segs).nextReadSize ∧
-    (feedAll V3.feed (V3.init true) segs).nextReadSize ≤ q.length := by
-  have := v3Laws.no_overread (V3.init true) _ (v3Wf_init true)
-    (by show (V3.feed (V3.init true) _).finished = true; rw [v3c_feed_encode _ _ hh hp]; rfl) (by show (V3.feed (V3.init true) _).unused = []; rw [v3c_feed_encode _ _ hh hp]; rfl) segs q hw hq
-  simpa [v3Machine] using this
+    (v3cMachine okH okS isSeq fx).stop (feedAll V3.feed (V3.init true) segs) = false ∧
+    1 ≤ (v3cMachine okH okS isSeq fx).nrs (feedAll V3.feed (V3.init true) segs) ∧
+    (v3cMachine okH okS isSeq fx).nrs (feedAll V3.feed (V3.init true) segs) ≤ q.length := by
+  obtain ⟨c1, c2⟩ := v3c_complete okH okS isSeq fx headers parts hh hp hH hS hQ hR
+  exact (v3cLaws okH okS isSeq fx).no_overread (V3.init true) _ (v3Wf_init true) c1 c2 segs q hw hq
 
-theorem v3c_zero_exactly_at_end (headers : Bytes) (parts : List Part)
+theorem v3c_zero_exactly_at_end (okH okS isSeq : Bytes → Bool) (fx : Bool) (headers : Bytes) (parts : List Part)
     (hh : headers.length < 4294967296) (hp : V3.partsOk parts = true)
+    (hH : okH headers = true) (hS : parts.all (fun p => evOk okH okS p.ev) = true)
+    (hQ : parts.all (fun p => evOk (fun _ => true) isSeq p.ev) = true)
+    (hR : (Resp.run fx {} (.headers headers :: (parts.map Part.ev ++ [.end_]))).toBool = true)
     (segs : List Bytes) (hne : segs ≠ []) (hw : segs.flatten = v3Encode headers parts) :
-    (feedAll V3.feed (V3.init true) segs).nextReadSize = 0 := by
-  have := v3Laws.stops_at_end (V3.init true) _ (by show (V3.feed (V3.init true) _).finished = true; rw [v3c_feed_encode _ _ hh hp]; rfl) segs hne hw
-  simpa [v3Machine] using this
+    (v3cMachine okH okS isSeq fx).stop (feedAll V3.feed (V3.init true) segs) = true ∧
+    (v3cMachine okH okS isSeq fx).fin (feedAll V3.feed (V3.init true) segs) = true := by
+  obtain ⟨c1, _⟩ := v3c_complete okH okS isSeq fx headers parts hh hp hH hS hQ hR
+  exact ⟨(v3cLaws okH okS isSeq fx).stops_at_end (V3.init true) _ c1 segs hne hw,
+    (v3cLaws okH okS isSeq fx).fin_of_all (V3.init true) _ c1 segs hne hw⟩
 
-theorem v3c_loop_consumes_exactly (headers : Bytes) (parts : List Part)
+theorem v3c_loop_consumes_exactly (okH okS isSeq : Bytes → Bool) (fx : Bool) (headers : Bytes) (parts : List Part)
     (hh : headers.length < 4294967296) (hp : V3.partsOk parts = true)
+    (hH : okH headers = true) (hS : parts.all (fun p => evOk okH okS p.ev) = true)
+    (hQ : parts.all (fun p => evOk (fun _ => true) isSeq p.ev) = true)
+    (hR : (Resp.run fx {} (.headers headers :: (parts.map Part.ev ++ [.end_]))).toBool = true)
     (sched : Nat → Nat) (i : Nat) (segs : List Bytes) (q : Bytes)
     (hw : segs.flatten ++ q = v3Encode headers parts) (hq : q ≠ []) :
-    pipeLoop v3Machine sched (q.length + 1) i (feedAll V3.feed (V3.init true) segs) q
-      = .finished (.done (.headers headers :: (parts.map Part.ev ++ [.end_])) []) [] := by
-  have := v3Laws.loop_from_reads (V3.init true) _ (v3Wf_init true)
-    (by show (V3.feed (V3.init true) _).finished = true; rw [v3c_feed_encode _ _ hh hp]; rfl) (by show (V3.feed (V3.init true) _).unused = []; rw [v3c_feed_encode _ _ hh hp]; rfl)
-    sched i segs q hw hq
-  have e : v3Machine.feed (V3.init true) _ = _ := v3c_feed_encode headers parts hh hp
-  rw [e] at this
-  exact this
+    pipeLoop (v3cMachine okH okS isSeq fx) sched (q.length + 1) i (feedAll V3.feed (V3.init true) segs) q
+      = .finished (V3.feed (V3.init true) (v3Encode headers parts)) [] := by
+  obtain ⟨c1, c2⟩ := v3c_complete okH okS isSeq fx headers parts hh hp hH hS hQ hR
+  exact (v3cLaws okH okS isSeq fx).loop_from_reads (V3.init true) _ (v3Wf_init true) c1 c2 sched i segs q hw hq
+
+/-- WHY the handler conditions are needed on the client: in whatever state the response
+handler has rejected the parts seen so far (`protocol_error` re-raises out of `_read_more`),
+the loop is over, with everything not yet read (`r`) left on the pipe. -/
+theorem v3c_rejected_stops_early (okH okS isSeq : Bytes → Bool) (fx : Bool) (s : V3)
+    (hbad : (Resp.run fx {} s.events).toBool = false)
+    (sched : Nat → Nat) (fuel i : Nat) (r : Bytes) :
+    pipeLoop (v3cMachine okH okS isSeq fx) sched (fuel + 1) i s r = .finished s r ∧
+      (v3cMachine okH okS isSeq fx).fin s = false := by
+  have hok : v3cOk okH okS isSeq fx s = false := by simp [v3cOk, hbad]
+  obtain ⟨_, h2, h3⟩ := guard_stops v3Machine (v3cOk okH okS isSeq fx) s hok
+  refine ⟨?_, h3⟩
+  unfold pipeLoop
+  rw [show (v3cMachine okH okS isSeq fx).stop s = true from h2]
+  rfl
+
+/-- such a state is reachable: a response with two status bytes (`oS oS`) -/
+example : (Resp.run true {} (V3.feed (V3.init true)
+    (marker3 ++ [0, 0, 0, 2, 100, 101, 111, 83, 111, 83])).events).toBool = false := by decide +kernel
 
 example : v3Wf (.run .bytes [0, 0, 0, 2, 9] [] 6) ∧
     ((V3.run .bytes [0, 0, 0, 2, 9] [] 6).feed [9, 101]).finished = true :=
   ⟨by show extractLP _ = _; decide, by decide +kernel⟩
+
+/-- the conditions are satisfiable with the driver's bencode model: headers `de`, a success
+response `oS` + `l2:oke` + one body part -/
+example : bencIsDict [100, 101] = true ∧
+    ([Part.byte 83, .struct [108, 50, 58, 111, 107, 101], .bytes [1, 2]].all
+      (fun p => evOk bencIsDict bencValid p.ev) = true) ∧
+    ([Part.byte 83, .struct [108, 50, 58, 111, 107, 101], .bytes [1, 2]].all
+      (fun p => evOk (fun _ => true) bencIsList p.ev) = true) ∧
+    (Resp.run true {} (.headers [100, 101] ::
+      ([Part.byte 83, .struct [108, 50, 58, 111, 107, 101], .bytes [1, 2]].map Part.ev ++ [.end_]))).toBool = true :=
+  ⟨by decide +kernel, by decide +kernel, by decide +kernel, by decide +kernel⟩
+
+/-- … and can fail: `x` is not bencode, so `v3s_undecodable_stops_early` applies -/
+example : bencValid [120] = false := by decide +kernel
 
 /-! ## protocol 1 / 2 server (`SmartServerRequestProtocolOne.next_read_size`) -/
 
@@ -241,5 +348,185 @@ theorem req_loop_consumes_exactly (w : List Bytes → Bool) (args : List Bytes) 
 
 example : reqWf (.line [104]) ∧ ((Req.line [104]).feed (fun _ => false) [105, 10]).finished = true :=
   ⟨by simp [reqWf], by decide⟩
+
+/-! ## a whole request on the server's pipe: `_build_protocol` + `_serve_one_request_unguarded`
+
+`serveMachine`: `_get_line` (`read_bytes(1)` until the newline), dispatch on the line
+(v3 marker / v2 marker / a protocol 1 argument line, which is re-fed to the decoder), then
+the loop on the chosen decoder.  `WellFormedRequest` (Lemmas/C30Serve.lean) = what the real
+client encoders of the three protocol versions write. -/
+
+theorem serve_no_overread (w : List Bytes → Bool) (okH okS : Bytes → Bool) (msg : Bytes)
+    (hm : WellFormedRequest w okH okS msg)
+    (segs : List Bytes) (q : Bytes) (hw : segs.flatten ++ q = msg) (hq : q ≠ []) :
+    let s := feedAll (serveMachine w okH okS).feed serveInit segs
+    (serveMachine w okH okS).stop s = false ∧ 1 ≤ (serveMachine w okH okS).nrs s ∧
+      (serveMachine w okH okS).nrs s ≤ q.length :=
+  let ⟨c1, c2⟩ := serve_complete hm
+  (serveLaws w okH okS).no_overread serveInit msg serveWf_init c1 c2 segs q hw hq
+
+theorem serve_done_exactly_at_end (w : List Bytes → Bool) (okH okS : Bytes → Bool) (msg : Bytes)
+    (hm : WellFormedRequest w okH okS msg)
+    (segs : List Bytes) (hne : segs ≠ []) (hw : segs.flatten = msg) :
+    (serveMachine w okH okS).stop (feedAll (serveMachine w okH okS).feed serveInit segs) = true ∧
+    (serveMachine w okH okS).fin (feedAll (serveMachine w okH okS).feed serveInit segs) = true :=
+  ⟨(serveLaws w okH okS).stops_at_end serveInit msg (serve_complete hm).1 segs hne hw,
+   (serveLaws w okH okS).fin_of_all serveInit msg (serve_complete hm).1 segs hne hw⟩
+
+/-- the server reads exactly the request, whatever the version, under every short-read
+schedule, starting from the very first byte (the line reader included); nothing is left to
+push back, so the next request on the same pipe starts on its own first byte -/
+theorem serve_loop_consumes_exactly (w : List Bytes → Bool) (okH okS : Bytes → Bool) (msg : Bytes)
+    (hm : WellFormedRequest w okH okS msg)
+    (sched : Nat → Nat) (i : Nat) (segs : List Bytes) (q : Bytes)
+    (hw : segs.flatten ++ q = msg) (hq : q ≠ []) :
+    pipeLoop (serveMachine w okH okS) sched (q.length + 1) i
+        (feedAll (serveMachine w okH okS).feed serveInit segs) q
+      = .finished ((serveMachine w okH okS).feed serveInit msg) [] ∧
+    (serveMachine w okH okS).fin ((serveMachine w okH okS).feed serveInit msg) = true ∧
+    (serveMachine w okH okS).unused ((serveMachine w okH okS).feed serveInit msg) = [] :=
+  let ⟨c1, c2⟩ := serve_complete hm
+  ⟨(serveLaws w okH okS).loop_from_reads serveInit msg serveWf_init c1 c2 sched i segs q hw hq, c1, c2⟩
+
+/-- the same with the medium's cap on every read (`min(hint, _MAX_READ_SIZE)`), any cap ≥ 1 -/
+theorem serve_capped_loop_consumes_exactly (w : List Bytes → Bool) (okH okS : Bytes → Bool)
+    (cap : Nat) (hc : 1 ≤ cap) (msg : Bytes) (hm : WellFormedRequest w okH okS msg)
+    (sched : Nat → Nat) (i : Nat) (segs : List Bytes) (q : Bytes)
+    (hw : segs.flatten ++ q = msg) (hq : q ≠ []) :
+    pipeLoop (capMachine (serveMachine w okH okS) cap) sched (q.length + 1) i
+        (feedAll (serveMachine w okH okS).feed serveInit segs) q
+      = .finished ((serveMachine w okH okS).feed serveInit msg) [] :=
+  let ⟨c1, c2⟩ := serve_complete hm
+  ((serveLaws w okH okS).cap cap hc).loop_from_reads serveInit msg serveWf_init c1 c2 sched i segs q hw hq
+
+/-- the client hangs up inside a request: the server reads what was sent, gets EOF, and has
+not reported completion at any point (no request is dispatched twice / half) -/
+theorem serve_truncated_eof (w : List Bytes → Bool) (okH okS : Bytes → Bool) (msg : Bytes)
+    (hm : WellFormedRequest w okH okS msg)
+    (sched : Nat → Nat) (i : Nat) (segs : List Bytes) (avail q : Bytes)
+    (hw : segs.flatten ++ (avail ++ q) = msg) (hq : q ≠ []) :
+    ∃ s', pipeLoopEof (serveMachine w okH okS) sched (avail.length + 1) i
+        (feedAll (serveMachine w okH okS).feed serveInit segs) avail = .eof s' ∧
+      (serveMachine w okH okS).stop s' = false ∧ (serveMachine w okH okS).fin s' = false :=
+  let ⟨c1, c2⟩ := serve_complete hm
+  (serveLaws w okH okS).eof_from_reads serveInit msg serveWf_init c1 c2 sched i segs avail q hw hq
+
+example : WellFormedRequest (fun _ => false) bencIsDict bencValid
+    (v3Encode [100, 101] [.struct [108, 53, 58, 104, 101, 108, 108, 111, 101]]) :=
+  .v3 _ _ (by decide) (by decide) (by decide +kernel) (by decide +kernel)
+example : WellFormedRequest (fun _ => true) bencIsDict bencValid
+    (request2 ++ reqEncode [[104, 105]] (some [1, 2, 3])) :=
+  .v2 _ _ (by decide) rfl
+example : WellFormedRequest (fun _ => false) bencIsDict bencValid (reqEncode [[104, 105]] none) :=
+  .v1 _ _ (by decide) rfl (by decide) (by decide)
+
+/-! ## client, protocol 1 / 2: `read_response_tuple` (`read_line`s) then the body reader -/
+
+theorem client1_no_overread (bk : BodyKind) (msg : Bytes) (hm : WellFormedResponse1 bk msg)
+    (segs : List Bytes) (q : Bytes) (hw : segs.flatten ++ q = msg) (hq : q ≠ []) :
+    let s := feedAll (client1 bk).feed client1Init segs
+    (client1 bk).stop s = false ∧ 1 ≤ (client1 bk).nrs s ∧ (client1 bk).nrs s ≤ q.length :=
+  let ⟨c1, c2⟩ := client1_complete hm
+  (client1Laws bk).no_overread client1Init msg client1Wf_init c1 c2 segs q hw hq
+
+theorem client1_loop_consumes_exactly (bk : BodyKind) (cap : Nat) (hc : 1 ≤ cap) (msg : Bytes)
+    (hm : WellFormedResponse1 bk msg)
+    (sched : Nat → Nat) (i : Nat) (segs : List Bytes) (q : Bytes)
+    (hw : segs.flatten ++ q = msg) (hq : q ≠ []) :
+    pipeLoop (client1 bk) sched (q.length + 1) i (feedAll (client1 bk).feed client1Init segs) q
+      = .finished ((client1 bk).feed client1Init msg) [] ∧
+    pipeLoop (capMachine (client1 bk) cap) sched (q.length + 1) i
+        (feedAll (client1 bk).feed client1Init segs) q
+      = .finished ((client1 bk).feed client1Init msg) [] ∧
+    (client1 bk).fin ((client1 bk).feed client1Init msg) = true :=
+  let ⟨c1, c2⟩ := client1_complete hm
+  ⟨(client1Laws bk).loop_from_reads client1Init msg client1Wf_init c1 c2 sched i segs q hw hq,
+   ((client1Laws bk).cap cap hc).loop_from_reads client1Init msg client1Wf_init c1 c2 sched i segs q hw hq,
+   c1⟩
+
+theorem client2_no_overread (bk : BodyKind) (msg : Bytes) (hm : WellFormedResponse2 bk msg)
+    (segs : List Bytes) (q : Bytes) (hw : segs.flatten ++ q = msg) (hq : q ≠ []) :
+    let s := feedAll (client2 bk).feed client2Init segs
+    (client2 bk).stop s = false ∧ 1 ≤ (client2 bk).nrs s ∧ (client2 bk).nrs s ≤ q.length :=
+  let ⟨c1, c2⟩ := client2_complete hm
+  (client2Laws bk).no_overread client2Init msg client2Wf_init c1 c2 segs q hw hq
+
+theorem client2_loop_consumes_exactly (bk : BodyKind) (cap : Nat) (hc : 1 ≤ cap) (msg : Bytes)
+    (hm : WellFormedResponse2 bk msg)
+    (sched : Nat → Nat) (i : Nat) (segs : List Bytes) (q : Bytes)
+    (hw : segs.flatten ++ q = msg) (hq : q ≠ []) :
+    pipeLoop (client2 bk) sched (q.length + 1) i (feedAll (client2 bk).feed client2Init segs) q
+      = .finished ((client2 bk).feed client2Init msg) [] ∧
+    pipeLoop (capMachine (client2 bk) cap) sched (q.length + 1) i
+        (feedAll (client2 bk).feed client2Init segs) q
+      = .finished ((client2 bk).feed client2Init msg) [] ∧
+    (client2 bk).fin ((client2 bk).feed client2Init msg) = true :=
+  let ⟨c1, c2⟩ := client2_complete hm
+  ⟨(client2Laws bk).loop_from_reads client2Init msg client2Wf_init c1 c2 sched i segs q hw hq,
+   ((client2Laws bk).cap cap hc).loop_from_reads client2Init msg client2Wf_init c1 c2 sched i segs q hw hq,
+   c1⟩
+
+/-- the server dies inside a response: the client's loop ends in EOF (`ConnectionResetError`)
+without having reported a complete response -/
+theorem client_truncated_eof (bk : BodyKind) (msg : Bytes)
+    (sched : Nat → Nat) (i : Nat) (avail q : Bytes) (hw : avail ++ q = msg) (hq : q ≠ []) :
+    (WellFormedResponse1 bk msg →
+      ∃ s', pipeLoopEof (client1 bk) sched (avail.length + 1) i client1Init avail = .eof s' ∧
+        (client1 bk).fin s' = false) ∧
+    (WellFormedResponse2 bk msg →
+      ∃ s', pipeLoopEof (client2 bk) sched (avail.length + 1) i client2Init avail = .eof s' ∧
+        (client2 bk).fin s' = false) := by
+  constructor
+  · intro hm
+    obtain ⟨c1, c2⟩ := client1_complete hm
+    obtain ⟨s', h1, _, h3⟩ := (client1Laws bk).eof_from_reads client1Init msg client1Wf_init c1 c2
+      sched i [] avail q (by simpa using hw) hq
+    exact ⟨s', h1, h3⟩
+  · intro hm
+    obtain ⟨c1, c2⟩ := client2_complete hm
+    obtain ⟨s', h1, _, h3⟩ := (client2Laws bk).eof_from_reads client2Init msg client2Wf_init c1 c2
+      sched i [] avail q (by simpa using hw) hq
+    exact ⟨s', h1, h3⟩
+
+example : WellFormedResponse2 .bulk
+    (response2 ++ ([115, 117, 99, 99, 101, 115, 115] ++ 10 :: ([111, 107] ++ 10 :: lpEncode [7, 7]))) :=
+  .mk _ _ _ (by decide) (by decide) (.bulk _)
+example : WellFormedResponse1 .none ([111, 107] ++ 10 :: []) := .mk _ _ (by decide) .none
+
+/-! ## the peer closes the pipe inside a message: the body / v3 readers never report completion -/
+
+theorem lp_truncated_eof (body : Bytes) (sched : Nat → Nat) (i : Nat) (segs : List Bytes)
+    (avail q : Bytes) (hw : segs.flatten ++ (avail ++ q) = lpEncode body) (hq : q ≠ []) :
+    ∃ s', pipeLoopEof lpMachine sched (avail.length + 1) i (feedAll LP.feed LP.init segs) avail
+        = .eof s' ∧ s'.finished = false := by
+  obtain ⟨s', h1, _, h3⟩ := lpLaws.eof_from_reads LP.init _ lpWf_init
+    (by show (LP.feed LP.init _).finished = true; rw [lp_feed_encode]; rfl)
+    (by show (LP.feed LP.init _).unused = []; rw [lp_feed_encode]; rfl) sched i segs avail q hw hq
+  exact ⟨s', h1, h3⟩
+
+theorem ck_truncated_eof (chunks : List Bytes) (err : Option (List Bytes)) (sched : Nat → Nat)
+    (i : Nat) (segs : List Bytes) (avail q : Bytes)
+    (hw : segs.flatten ++ (avail ++ q) = ckEncode chunks err) (hq : q ≠ []) :
+    ∃ s', pipeLoopEof ckMachine sched (avail.length + 1) i (feedAll CK.feed CK.init segs) avail
+        = .eof s' ∧ s'.finished = false := by
+  obtain ⟨s', h1, _, h3⟩ := ckLaws.eof_from_reads CK.init _ ckWf_init
+    (by simp only [ckMachine]; rw [ck_feed_encode]; rfl)
+    (by simp only [ckMachine]; rw [ck_feed_encode]; rfl) sched i segs avail q hw hq
+  exact ⟨s', h1, h3⟩
+
+theorem v3c_truncated_eof (okH okS isSeq : Bytes → Bool) (fx : Bool) (headers : Bytes) (parts : List Part)
+    (hh : headers.length < 4294967296) (hp : V3.partsOk parts = true)
+    (hH : okH headers = true) (hS : parts.all (fun p => evOk okH okS p.ev) = true)
+    (hQ : parts.all (fun p => evOk (fun _ => true) isSeq p.ev) = true)
+    (hR : (Resp.run fx {} (.headers headers :: (parts.map Part.ev ++ [.end_]))).toBool = true)
+    (sched : Nat → Nat) (i : Nat) (segs : List Bytes) (avail q : Bytes)
+    (hw : segs.flatten ++ (avail ++ q) = v3Encode headers parts) (hq : q ≠ []) :
+    ∃ s', pipeLoopEof (v3cMachine okH okS isSeq fx) sched (avail.length + 1) i
+        (feedAll V3.feed (V3.init true) segs) avail = .eof s' ∧
+      (v3cMachine okH okS isSeq fx).stop s' = false := by
+  obtain ⟨c1, c2⟩ := v3c_complete okH okS isSeq fx headers parts hh hp hH hS hQ hR
+  obtain ⟨s', h1, h2, _⟩ := (v3cLaws okH okS isSeq fx).eof_from_reads (V3.init true) _
+    (v3Wf_init true) c1 c2 sched i segs avail q hw hq
+  exact ⟨s', h1, h2⟩
 
 end BreezyVerif.C30
